@@ -193,6 +193,7 @@ func c10run(env sched.Env) *sched.Report {
 		}
 		for _, bs := range bufs {
 			rep.Execs++
+			sched.Progress(c10case{Kind: "stream", Stream: canon, Buf: bs, N: 1})
 			if s, d := c10decodeStream(append(append([]byte{}, canon...), resp.Encode(sentinel)...), nil, bs, []resp.Value{v, sentinel}); s != "" {
 				fail(s+" / single message / "+string(v.Kind), fmt.Sprintf("buf %d value %s: %s", bs, v, d), c10case{Kind: "stream", Stream: canon, Buf: bs, N: 1})
 			}
@@ -234,6 +235,7 @@ func c10run(env sched.Env) *sched.Report {
 		streams++
 		run := func(cuts []int, bs int) {
 			rep.Execs++
+			sched.Progress(c10case{Kind: "stream", Stream: stream, Cuts: cuts, Buf: bs, N: len(want)})
 			if s, d := c10decodeStream(stream, cuts, bs, want); s != "" {
 				fail(s+" / chunked stream", fmt.Sprintf("stream %q cuts %v buf %d: %s", abbreviate(stream), cuts, bs, d), c10case{Kind: "stream", Stream: stream, Cuts: cuts, Buf: bs, N: len(want)})
 			}
@@ -312,6 +314,7 @@ func c10run(env sched.Env) *sched.Report {
 			}
 			for c := range cand {
 				rep.Execs++
+				sched.Progress(c10case{Kind: "stream", Stream: stream, Cuts: []int{c}, Buf: bs, N: 3})
 				if s, d := c10decodeStream(stream, []int{c}, bs, want); s != "" {
 					fail(s+" / long message", fmt.Sprintf("len %d cut %d buf %d: %s", len(enc), c, bs, d), c10case{Kind: "stream", Stream: stream, Cuts: []int{c}, Buf: bs, N: 3})
 				}
